@@ -74,6 +74,10 @@ def rule_binders(ck, facts):
 
 
 def run(ck, facts, tier):
+    from ..rules import invented as _inv
+
+    # a binder the compiler makes up under a spellable name can capture (or be captured by) a variable of the program
+    _inv.run(ck, facts, "C16.invented-names")
     lang = facts.crate(roles.LANG)
     rule_binders(ck, facts)
     c09.rule_gensym(ck, facts, lang, R="C09.gensym")
